@@ -20,10 +20,15 @@ def run_mutant(path):
     pid = os.path.basename(os.path.dirname(path))
     name = os.path.basename(path)[:-6]
     text = open(path).read()
-    m = re.match(r"# expect: (.*)\n", text)
-    if not m:
-        return (pid, name, False, "no '# expect:' header")
-    expect = m.group(1).strip()
+    if path.endswith("patch.diff"):
+        # a seeded change from an independent sub-agent (/verif/seeded/<Cnn>/patch.diff):
+        # the check of its own property must report something
+        name, expect = "seeded-change", r"\(violated\)|\(undecided\)"
+    else:
+        m = re.match(r"# expect: (.*)\n", text)
+        if not m:
+            return (pid, name, False, "no '# expect:' header")
+        expect = m.group(1).strip()
     scratch = tempfile.mkdtemp(prefix="pvmut.")
     try:
         dst = os.path.join(scratch, "repo")
@@ -47,7 +52,7 @@ def run_mutant(path):
 
 def main():
     want = [a for a in sys.argv[1:] if re.match(r"^C\d+$", a)]
-    paths = sorted(glob.glob(os.path.join(VERIF, "selftest", "C*", "*.patch")))
+    paths = sorted(glob.glob(os.path.join(VERIF, "selftest", "C*", "*.patch")) + glob.glob(os.path.join(VERIF, "seeded", "C*", "patch.diff")))
     if want:
         paths = [p for p in paths if os.path.basename(os.path.dirname(p)) in want]
     if not paths:
